@@ -134,6 +134,29 @@ CLAIMED = {
         note="Known finding F-C13-from-errors-wrap (u32 lane sums wrap for larger folded residuals); PrcParameterFinder::find's merge loop itself is not under contract (composition argument only).",
         technique=KANI + " + " + VERUS,
         design_ref="6 C13"),
+    "C15": dict(
+        category="proof",
+        text=("Parser o writer = identity on the leaf codes, complete over their code spaces (UTF-8 number per byte-count class, "
+              "block-size and sample-rate codes, two's complement for widths 1..26, unary code on a byte), and on small components "
+              "(CONSTANT, VERBATIM, one frame-header shape: parse of written bits returns the same component, consumes exactly "
+              "count_bits() bits, re-serialises identically); the crate's own decoder (residual, fixed and LPC synthesis in 64 bit, "
+              "stereo un-mixing) equals the independent RFC spec functions on small blocks."),
+        note=("Bounded: nothing that goes through parser::residual (FIXED/LPC subframes, whole frames, whole streams) is within Kani's "
+              "reach - nom's closure plumbing defeats constant propagation and two input bytes already exhaust memory; Verus does not "
+              "accept nom combinators.  Those parts of the statement are NOT decided."),
+        technique=KANI,
+        design_ref="6 C15"),
+    "C16": dict(
+        category="proof",
+        text=("Two clauses are decided: (1) no panic of each sub-parser on ARBITRARY input bytes of fixed small length with arbitrary "
+              "in-range parameters (utf8_code, block_size_code + block_size(), sample_rate_code for every tag, subframe_header, constant, "
+              "verbatim, quantized_parameters, stream_info, metadata_block, frame_header with and without CRC, u_to_i for every width); "
+              "(2) frame_header(true) returns Ok only if the stored CRC-8 equals the checksum of the consumed bytes."),
+        note=("Bounded in input length (8 header bytes, 34 STREAMINFO bytes, ...), complete in byte values.  Not decided: 'an altered "
+              "frame is never accepted with different audio' (a probabilistic fact about 16-bit coincidences), the frame CRC-16 and every "
+              "recogniser built on parser::residual (intractable for Kani; `impl FnMut`-returning parsers cannot be stubbed)."),
+        technique=KANI,
+        design_ref="6 C16"),
     "C17": dict(
         category="proof",
         text=("Argument contracts over the FULL symbolic domain (not a grid): StreamInfo::new / Stream::new / FrameHeader::new / "
